@@ -545,6 +545,56 @@ def r6_no_memo(chk, prog):
     chk.ok('R6', '', 'function-local statics in the rendering units: %d' % n_static)
 
 
+INT_BITS = {'bool': 1, 'char': 8, 'signed char': 8, 'unsigned char': 8, 'short': 16, 'unsigned short': 16, 'int': 32,
+            'unsigned int': 32, 'long': 64, 'unsigned long': 64, 'long long': 64, 'unsigned long long': 64}
+
+
+def r7_lossless_options(chk, prog):
+    """R7: width, alignment and format string travel from the builder to the renderer without loss: every
+    assignment in the builder whose target is a member of Definition::Field, and every assignment of a parameter to
+    a pending-option member of the builder, is between equal types or widens - an implicit integral conversion to
+    a narrower (or differently signed, equally wide) type would render a width of 300 as 44"""
+    def bt(t):
+        return (t or '').replace('const ', '').replace('&', '').strip()
+
+    def narrowing(node):
+        """the implicit integral conversion on top of an assigned value that loses values, or None"""
+        n = node
+        while n.get('k') == 'ImplicitCastExpr':
+            if n.get('ck') == 'IntegralCast':
+                src = bt(children(n)[0].get('t'))
+                dst = bt(n.get('t'))
+                if src in INT_BITS and dst in INT_BITS:
+                    sb, db = INT_BITS[src], INT_BITS[dst]
+                    s_uns, d_uns = src.startswith('unsigned') or src == 'bool', dst.startswith('unsigned') or dst == 'bool'
+                    if db < sb or (db == sb and s_uns != d_uns):
+                        return src, dst
+            n = children(n)[0]
+        return None
+    n_asg = 0
+    for f in prog.functions:
+        if (f.classq or '') != 'celma::log::formatting::Creator' or f.body is None:
+            continue
+        for x in f.walk():
+            if x.get('k') != 'BinaryOperator' or x.get('op') != '=':
+                continue
+            lhs, rhs = children(x)
+            l0 = strip_all_casts(lhs)
+            if l0.get('k') != 'MemberExpr' or l0['ref'].get('dk') != 'Field':
+                continue
+            q = l0['ref'].get('q') or ''
+            r0 = strip_all_casts(rhs)
+            from_state = r0.get('k') in ('MemberExpr', 'DeclRefExpr') and \
+                (r0.get('ref', {}).get('dk') == 'Field' or r0.get('ref', {}).get('sto') == 'param')
+            if not (('Definition::Field::' in q or 'Creator::' in q) and from_state):
+                continue
+            n_asg += 1
+            nar = narrowing(rhs)
+            chk.check(nar is None, 'R7', f.name, '%s is handed on without loss' % q.split('::')[-1], f.loc(x),
+                      'implicit conversion %s -> %s' % nar if nar else '')
+    chk.require(n_asg >= 6, 'option assignments in the builder: %d' % n_asg)
+
+
 def run(chk):
     units = units_matching('library/log/formatting/', 'library/log/detail/log_attributes_container.cpp',
                            'library/log/detail/log_scoped_attribute.cpp', 'library/log/log_attributes.cpp',
@@ -573,3 +623,5 @@ def run(chk):
     r5_message_getters(chk, prog)
     chk.rule('R6', 'no function-local static memoises data of the first message', 1)
     r6_no_memo(chk, prog)
+    chk.rule('R7', 'width / alignment / format string reach the field definition without narrowing', 6)
+    r7_lossless_options(chk, prog)
